@@ -79,8 +79,24 @@ struct Chain {
 	Chain(const Chain &) = delete; Chain &operator=(const Chain &) = delete;
 };
 
+// "warm handle": the lzma_stream has already coded other data with the same kind of coder and is re-initialised without
+// lzma_end() (as xz does for the next file / a Block coder for the next Block): per-stream filter state must start afresh.
+static unsigned g_warm = 0;
+static void warm_up(lzma_stream *s, bool encoder, const lzma_filter *chain) {
+	std::vector<uint8_t> w(200 + 37 * g_warm); for (size_t i = 0; i < w.size(); ++i) w[i] = (uint8_t)(i * 131 + (i >> 3) * 17 + g_warm);
+	// x86 / ARM-like opcodes so that BCJ filters keep state too
+	for (size_t i = 5; i + 5 < w.size(); i += 9) { w[i] = 0xE8; w[i + 4] = (i & 1) ? 0xFF : 0x00; }
+	std::vector<uint8_t> input = w;
+	if (!encoder) { lzma_stream e = LZMA_STREAM_INIT; e.allocator = POOL(); if (lzma_raw_encoder(&e, chain) != LZMA_OK) { lzma_end(&e); return; } drv::Result r = drv::run(&e, w.data(), w.size(), drv::Schedule()); lzma_end(&e); if (r.ret != LZMA_STREAM_END) return; input = r.out; }
+	if ((encoder ? lzma_raw_encoder(s, chain) : lzma_raw_decoder(s, chain)) != LZMA_OK) return;
+	drv::Opts o; o.out_cap = 1u << 16; if (g_warm & 1) o.final_action = LZMA_RUN;   // sometimes the warm-up is abandoned in the middle
+	size_t n = (g_warm & 2) ? input.size() : input.size() / 2; (void)drv::run(s, input.data(), n, drv::Schedule(), o);
+	count("warm_handle_reinit");
+}
+
 static std::vector<uint8_t> raw_run(bool encoder, const lzma_filter *chain, const std::vector<uint8_t> &in, const drv::Schedule &sch, size_t out_cap, const char *what) {
 	lzma_stream s = LZMA_STREAM_INIT; s.allocator = POOL();
+	if (g_warm && chain[1].id != LZMA_VLI_UNKNOWN) warm_up(&s, encoder, chain);
 	lzma_ret ir = encoder ? lzma_raw_encoder(&s, chain) : lzma_raw_decoder(&s, chain);
 	if (ir != LZMA_OK) violation("C15:init", "%s: init returned %s", what, drv::retname(ir));
 	drv::Opts o; o.out_cap = out_cap; o.out_hint = std::min<size_t>(out_cap, in.size() + 4096);
@@ -436,6 +452,8 @@ extern "C" int LLVMFuzzerTestOneInput(const uint8_t *data, size_t size) {
 	static bool once = false;
 	if (!once) { once = true; if (!getenv("VERIF_C15_SKIP_GOLDEN")) run_golden(); /* the variable exists for sensitivity experiments only */ count(sys().ok ? "sys_library_loaded" : "sys_library_not_loaded"); }
 	Case c(data, size);
+	// the last case byte decides (for ~1/4 of the cases) that every filtering coder runs on a "warm" handle, see warm_up()
+	g_warm = size && (data[size - 1] & 3) == 3 ? 1 + ((data[size - 1] >> 2) & 3) : 0;
 	one_case(c);
 	return 0;
 }
